@@ -284,7 +284,11 @@ impl RecordDefinition<NativeDatumDetails> {
     /// This is used to determine the size of the byte buffer required to store any variant of this
     /// record definition.
     pub fn max_size(&self) -> usize {
-        self.datum_definitions()
+        // Only data that made it into a variant have an offset: a datum added and removed again
+        // before its variant was closed was never placed.
+        self.variants()
+            .flat_map(|v| v.data())
+            .map(|d| &self[d])
             .map(|d| d.details().offset() + d.details().size())
             .max()
             .unwrap_or(0)
